@@ -93,6 +93,37 @@ Proof.
   - right. exists hi, lo. repeat split; lia.
 Qed.
 
+(* ... and conversely: every well-formed encoding of parts within the RFC 3110
+   limits (1..=512 octets each, a 4096-bit modulus included) is accepted *)
+Lemma rsa_parse_complete pk min_len e n :
+  rsa_part_ok e -> rsa_part_ok n -> min_len <= len n ->
+  ((pk = len e :: e ++ n /\ len e <= 255) \/
+   (exists hi lo, pk = 0 :: hi :: lo :: e ++ n /\ of_be16 hi lo = len e /\ 1 <= hi <= 255)) ->
+  rsa_exponent_modulus pk min_len = Ok (e, n).
+Proof.
+  intros He Hn Hm Hpk. pose proof He as [[He1 He2] _]. apply rsa_part_bad_spec in He, Hn.
+  unfold rsa_exponent_modulus.
+  assert (Hfin : forall rest, rest = e ++ n ->
+    (if len rest <? len e then Err 1
+     else if rsa_part_bad (firstn (N.to_nat (len e)) rest) || rsa_part_bad (skipn (N.to_nat (len e)) rest) then Err 1
+     else if len (skipn (N.to_nat (len e)) rest) <? min_len then Err 2
+     else Ok (firstn (N.to_nat (len e)) rest, skipn (N.to_nat (len e)) rest)) = Ok (e, n)).
+  { intros rest ->. rewrite len_app. replace (len e + len n <? len e) with false by (symmetry; apply N.ltb_ge; lia).
+    rewrite firstn_len_app, skipn_len_app, He, Hn. cbn [orb].
+    replace (len n <? min_len) with false by (symmetry; apply N.ltb_ge; lia). reflexivity. }
+  destruct Hpk as [[-> Hs]|(hi & lo & -> & Hbe & Hhi)].
+  - unfold rsa_split, rsa_short_min, rsa_short_max.
+    replace ((1 <=? len e) && (len e <=? 255)) with true by (symmetry; apply andb_true_iff; split; apply N.leb_le; lia).
+    apply Hfin. reflexivity.
+  - unfold rsa_split, rsa_short_min, rsa_short_max, rsa_long_hi_min. cbn [andb N.leb N.compare N.eqb].
+    replace ((1 <=? hi) && (hi <=? 255)) with true by (symmetry; apply andb_true_iff; split; apply N.leb_le; lia).
+    rewrite Hbe. apply Hfin. reflexivity.
+Qed.
+
+(* the limits themselves: a part is accepted iff it has 1..=512 octets and no leading zero *)
+Lemma rsa_part_accept_iff b : rsa_part_bad b = false <-> (1 <= len b <= 512 /\ head_nonzero b).
+Proof. apply rsa_part_bad_spec. Qed.
+
 (* key_size on a key that parses: the modulus length in bits, counted from its
    first set bit *)
 Lemma key_size_of_parsed alg pk min_len e n :
@@ -160,6 +191,7 @@ Example rsa_examples :
   key_size 8 [5; 1; 2] = Err 1 /\ key_size 8 [1; 3] = Err 1 /\
   key_size 13 [1; 2; 3; 4] = Ok 16 /\ key_size 15 [1; 2; 3] = Ok 24 /\ key_size 3 [1] = Err 2 /\
   rsa_encode [0; 1; 0; 1] [0; 200; 17] = Ok [3; 1; 0; 1; 200; 17] /\
+  map (fun k => is_ok (rsa_exponent_modulus (3 :: 1 :: 0 :: 1 :: repeat 129 k) 0)) [511; 512; 513]%nat = [true; true; false] /\
   map (fun a => key_size a [1; 3; 129]) [5; 7; 8; 10; 13; 14; 15; 16; 1; 12] =
     [Ok 8; Ok 8; Ok 8; Ok 8; Ok 8; Ok 8; Ok 24; Ok 24; Err 2; Err 2].
 Proof. vm_compute. repeat split. Qed.
